@@ -4,7 +4,7 @@
 //!                panic(message).  mode "exact" (Rat always; floats on data where every operation of the Thomas
 //!                algorithm is exact): x as integers xs over a common denominator L.  mode "outcome": only whether
 //!                the call refused.  mode "units": backward-error units against double-double references.
-use super::banded::{backward_units, common_den, cx_common_den, f64_to_rat, gint, gr_solve, PIVOTS, jscale, scal, scale2, to_rat2, tool_error, vec_of, BE, LIM};
+use super::banded::{sc, fval, backward_units, common_den, cx_common_den, f64_to_rat, gint, gr_solve, PIVOTS, jscale, scal, scale2, to_rat2, tool_error, vec_of, BE, LIM};
 use crate::dd::CDD;
 use crate::rat::Rat;
 use crate::util::*;
@@ -232,21 +232,28 @@ fn mentions_zero(msg: &str) -> bool { msg.to_lowercase().contains("zero") }
 
 fn run_sol<T: BE>(case: &Value, out: &mut Out) {
     let cid = geti(case, "cid");
-    let m = match construct::<T>(case, out) { Some(m) => m, None => return };
     let n = getu(&case["tri"], "n");
-    let r = vec_of::<T>(&case["r"], if T::CX { case.get("ri") } else { None });
+    // exponent sweep (exact modes): the matrix actually built is 2^xa * T, the right-hand side 2^xb * r; the events speak
+    // about the integer system T x = r (homogeneity: the solution is rescaled by exactly 2^(xa - xb), det by 2^(-n xa))
+    let xa = case.get("xa").and_then(|v| v.as_i64()).unwrap_or(0); let xb = case.get("xb").and_then(|v| v.as_i64()).unwrap_or(0);
+    let scase = if xa == 0 && xb == 0 { case.clone() } else { let mut c = case.clone();
+        for f in ["sub", "main", "sup", "subi", "maini", "supi"] { if let Some(v) = case["tri"].get(f) { c["tri"][f] = Value::from(v.as_array().unwrap().iter().map(|x| jscale(x, xa)).collect::<Vec<Value>>()); } }
+        for f in ["r", "ri"] { if let Some(v) = case.get(f) { c[f] = Value::from(v.as_array().unwrap().iter().map(|x| jscale(x, xb)).collect::<Vec<Value>>()); } } c };
+    let m = match construct::<T>(&scase, out) { Some(m) => m, None => return };
+    let r = vec_of::<T>(&scase["r"], if T::CX { scase.get("ri") } else { None });
     let mode = if T::NAME == "rat" { "exact" } else { match gets(case, "mode") { "" => "outcome", s => s } };
     let mut k = 0usize;
     let emit = |out: &mut Out, k: &mut usize, mut e: Value| { e["ty"] = json!(T::NAME); e["cid"] = json!(cid); e["k"] = json!(*k); e["mode"] = json!(mode); *k += 1; out.ev(e); };
-    let det = guarded(|| m.det());
-    let sol = guarded(|| m.solve(&r));
+    let det = guarded(|| m.det()).map(|d| sc(d, -xa * n as i64));
+    let sol = guarded(|| m.solve(&r)).map(|x| Vector::create(x.vec.iter().map(|v| sc(*v, xa - xb)).collect()));
     let (panic, msg) = match &sol { Ok(_) => (false, String::new()), Err(s) => (true, s.clone()) };
+    let nodet = case.get("nodet").is_some();
     if T::CX && mode == "exact" {
         // Gaussian-integer data on which every complex float operation of the Thomas algorithm is exact: judged over Gaussian rationals
         let (pre, prei) = (re_tri(&case["tri"]), im_tri(&case["tri"]));
         let ri = case.get("ri").cloned().unwrap_or_else(|| zeros_like(&case["r"]));
         let (rq, rqi) = match det.as_ref().ok().and_then(to_rat2) { Some((a, b)) => (jrat(a), jrat(b)), None => (json!([BAD, 1]), json!([BAD, 1])) };
-        emit(out, &mut k, json!({"op": "det_cx", "pre": pre, "prei": prei, "panic": det.is_err(), "rq": rq, "rqi": rqi}));
+        if !nodet { emit(out, &mut k, json!({"op": "det_cx", "pre": pre, "prei": prei, "panic": det.is_err(), "rq": rq, "rqi": rqi})); }
         let conv: Option<Vec<(Rat, Rat)>> = sol.as_ref().ok().and_then(|x| x.vec.iter().map(to_rat2).collect());
         let (xs, xsi, l) = match conv.and_then(|v| cx_common_den(&v, LIM)) { Some((a, b, l)) => (Value::from(a), Value::from(b), json!(l)), None => (Value::from(vec![BAD; n]), Value::from(vec![BAD; n]), json!(BAD)) };
         emit(out, &mut k, json!({"op": "solve_cx", "pre": pre, "prei": prei, "r": case["r"], "ri": ri, "panic": panic, "msg": msg, "zero": panic && mentions_zero(&msg), "xs": xs, "xsi": xsi, "L": l}));
@@ -256,7 +263,7 @@ fn run_sol<T: BE>(case: &Value, out: &mut Out) {
         let pre = re_tri(&case["tri"]);
         // determinant: exact where the arithmetic is (Rat; floats on small integers: every term is an integer below 2^53)
         let rq = match &det { Ok(d) => match to_rat(d) { Some((q, true)) => jrat(q), _ => json!([BAD, 1]) }, Err(_) => json!([BAD, 1]) };
-        emit(out, &mut k, json!({"op": "det", "pre": pre, "panic": det.is_err(), "rq": rq}));
+        if !nodet { emit(out, &mut k, json!({"op": "det", "pre": pre, "panic": det.is_err(), "rq": rq})); }
         let mut e = json!({"op": "solve", "pre": pre, "r": case["r"], "panic": panic, "msg": msg, "zero": panic && mentions_zero(&msg)});
         let conv: Option<Vec<(Rat, bool)>> = sol.as_ref().ok().and_then(|x| x.vec.iter().map(to_rat).collect());
         let imzero = conv.as_ref().map(|v| v.iter().all(|p| p.1)).unwrap_or(false);
@@ -284,7 +291,7 @@ fn run_sol<T: BE>(case: &Value, out: &mut Out) {
     }
     // product, conversion, accessors on the same matrix (integer data only)
     let ints = ["sub", "main", "sup", "subi", "maini", "supi"].iter().all(|f| case["tri"].get(*f).map(|v| v.as_array().unwrap().iter().all(|x| x.is_i64())).unwrap_or(true));
-    if ints {
+    if ints && case.get("aux").and_then(|v| v.as_bool()) != Some(false) {
         let v = case.get("v").cloned().unwrap_or_else(|| Value::from((1..=n as i64).map(|j| 2 * j - 3).collect::<Vec<i64>>()));
         let vi = case.get("vi").cloned().unwrap_or_else(|| zeros_like(&v));
         let sub = json!({"cid": cid, "tri": case["tri"], "ctor": case.get("ctor").cloned().unwrap_or(json!("vecs")), "ops": [{"op": "matvec", "form": if cid % 2 == 0 { "own" } else { "ref" }, "v": v, "vi": vi}, {"op": "convert"}, {"op": "diags"}, {"op": "size"}]});
@@ -293,6 +300,7 @@ fn run_sol<T: BE>(case: &Value, out: &mut Out) {
 }
 
 pub fn exec(case: &Value, out: &mut Out) {
+    let _guard = super::banded::narrowed(case);        // "cpus": k -> run with the process restricted to k CPUs
     if gets(case, "kind") == "eps" { match gets(case, "ty") { "f64" => run_eps::<f64>(case, out), "cx" => run_eps::<Cmplx>(case, out), t => tool_error(&format!("eps case for type {}", t)) } return; }
     let hist = matches!(gets(case, "kind"), "hist" | "seq");
     match (gets(case, "ty"), hist) {
@@ -527,6 +535,11 @@ pub fn gen(tier: &str, seed: u64, out: &mut Out) {
             if quick && (q + s + n) % 3 != 0 && !(*t == 53 && (s + n) % 2 == 0) { continue; }
             for _rep in 0..(if quick { 1 } else { 3 }) { if let Some(c) = eps_case(&mut rng, n, s, *t, *cx) { push(out, c); } }
         } } }
+        // (f) a sample of the histories re-run with the process restricted to 1, 2, 3 CPUs (results may not depend on it)
+        for rep in 0..(if quick { 1 } else { 4 }) { for (t, ty) in TYS.iter().enumerate() {
+            let ops = hist_ops(&mut rng, n, ty, 10);
+            push(out, json!({"kind": "hist", "fam": "narrowed", "cpus": 1 + (n + rep + t) % 3, "ty": ty, "ctor": ctors[(rep + t) % 3], "tri": rand_tri(&mut rng, n, -9, 9, *ty == "cx"), "ops": ops}));
+        } }
         // (e) sequences on one object: det / solve / product / reads before and after EVERY mutating operation
         for ty in TYS { for _rep in 0..(if quick { 1 } else { 4 }) {
             let mut mag = 3i64; let mut best = seq_case(&mut rng, n, ty, mag);
@@ -534,6 +547,15 @@ pub fn gen(tier: &str, seed: u64, out: &mut Out) {
             push(out, best.0);
         } }
     }
+    { let mut sink = |c: Value| push(out, c); exact_and_sweep(&mut rng, quick, seed, &mut sink); }
+    // (g) the product (and conversion) for sizes beyond the number of CPUs, partly with the process restricted to 1..3 CPUs
+    for (t, n) in [17usize, 24, 33, 40].iter().enumerate() { for (q, ty) in TYS.iter().enumerate() {
+        let cx = *ty == "cx"; let mv = |rng: &mut StdRng, form: &str| { let mut o = json!({"op": "matvec", "form": form, "v": rv(rng, *n, -5, 5)}); if cx { o["vi"] = Value::from(rv(rng, *n, -5, 5)); } o };
+        let ops = vec![json!({"op": "size"}), mv(&mut rng, "ref"), mv(&mut rng, "own"), json!({"op": "transpose_in_place"}), mv(&mut rng, "ref"), json!({"op": "convert"})];
+        let mut c = json!({"kind": "hist", "fam": "large-n", "ty": ty, "ctor": "vecs", "tri": rand_tri(&mut rng, *n, -9, 9, cx), "ops": ops});
+        if (t + q) % 2 == 1 { c["cpus"] = json!(1 + (t + q) % 3); }
+        push(out, c);
+    } }
 }
 
 // ------------------------------------------------------------------ sequences on ONE object (stale internal state)
@@ -735,4 +757,73 @@ fn eps_case(rng: &mut StdRng, n: usize, s: usize, t: i64, cx: bool) -> Option<Va
         return Some(json!({"kind": "eps", "ty": if cx { "cx" } else { "f64" }, "t": t, "step": s, "tri": {"n": n, "sub": pj(&sub), "main": pj(&main), "sup": pj(&sup)}, "r": pj(&r)}));
     }
     None
+}
+
+// ------------------------------------------------------------------ exact integer systems with "awkward" pivots; exponent sweep
+/// pivots whose reciprocal is not a dyadic number (odd parts 49, 51, 103, 147, 97, 201, 7)
+const ODD_PIVOTS: [i64; 10] = [49, 51, 98, 103, 147, 196, 97, 201, 112, 7];
+/// Integer tridiagonal system on which the textbook Thomas elimination is exact in f64: pivots beta_j (mostly +-1, +-2, up to
+/// `nodd` of them from ODD_PIVOTS), integer multipliers g_j = sup_j / beta_j, integer solution x, r = T x.  `zero_at` = Some(s)
+/// makes pivot s vanish by exact cancellation (for s >= 1 against an odd pivot: main_s = sub_{s-1} * sup_{s-1} / beta_{s-1}).
+fn exact_tri(rng: &mut StdRng, n: usize, zero_at: Option<usize>, nodd: usize, mag: i64) -> (Vec<i64>, Vec<i64>, Vec<i64>, Vec<i64>) {
+    let pm = |rng: &mut StdRng, v: i64| -> i64 { if rng.gen_bool(0.5) { v } else { -v } };
+    let mut beta: Vec<i64> = (0..n).map(|_| { let b = if rng.gen_bool(0.3) { 2 } else { 1 }; pm(rng, b) }).collect();
+    let mut oddpos: Vec<usize> = vec![]; for _ in 0..nodd { oddpos.push(rng.gen_range(0..n)); }
+    if let Some(s) = zero_at { if s >= 1 && nodd > 0 { oddpos.push(s - 1); } }
+    for p in oddpos { let v = ODD_PIVOTS[rng.gen_range(0..ODD_PIVOTS.len())]; beta[p] = pm(rng, v); }
+    if let Some(s) = zero_at { beta[s] = 0; }
+    let nzr = |rng: &mut StdRng| -> i64 { let v = rng.gen_range(1..=mag.max(1)); pm(rng, v) };
+    let g: Vec<i64> = (0..n.saturating_sub(1)).map(|j| if zero_at == Some(j + 1) { nzr(rng) } else { rng.gen_range(-mag..=mag) }).collect();
+    let sub: Vec<i64> = (0..n.saturating_sub(1)).map(|j| if zero_at == Some(j + 1) { nzr(rng) } else { rng.gen_range(-mag..=mag) }).collect();
+    let mut main = vec![beta[0]]; let mut sup = vec![];
+    for j in 0..n.saturating_sub(1) {
+        let bj = if beta[j] == 0 || zero_at.map(|s| j > s).unwrap_or(false) { 1 } else { beta[j] };
+        sup.push(bj * g[j]); main.push(beta[j + 1] + sub[j] * g[j]);
+    }
+    let x: Vec<i64> = (0..n).map(|_| rng.gen_range(-mag.max(1)..=mag.max(1))).collect();
+    let r: Vec<i64> = (0..n).map(|i| main[i] * x[i] + if i > 0 { sub[i - 1] * x[i - 1] } else { 0 } + if i + 1 < n { sup[i] * x[i + 1] } else { 0 }).collect();
+    (sub, main, sup, r)
+}
+/// number of bits of the largest magnitude occurring in the data
+fn bits_of(vs: &[&Vec<i64>]) -> i64 { let m = vs.iter().flat_map(|v| v.iter()).map(|x| x.abs()).max().unwrap_or(0); 64 - (m.max(1) as u64).leading_zeros() as i64 }
+/// the exact families (c4) and the exponent sweep (c5), written out by gen
+fn exact_and_sweep(rng: &mut StdRng, quick: bool, seed: u64, push: &mut dyn FnMut(Value)) {
+    let ctors = ["vecs", "vectors", "index"];
+    // (c4) awkward pivots: regular systems, and a zero pivot by exact cancellation at every step
+    for n in 1..=12usize { let mut steps: Vec<Option<usize>> = vec![None, None]; if quick { steps.push(Some(rng.gen_range(0..n))); steps.push(Some(n - 1)); } else { steps.extend((0..n).map(Some)); steps.extend([None; 4]); }
+        for (q, s) in steps.iter().enumerate() {
+            let mut found = None;
+            for t in 0..80 { let (sub, main, sup, r) = exact_tri(rng, n, *s, if t < 40 { 2 } else { 1 }, 3); if fits_tlc(&sub, &main, &sup, &r) { found = Some((sub, main, sup, r)); break; } }
+            if let Some((sub, main, sup, r)) = found {
+                let tys: Vec<&str> = if quick { vec!["f64", TYS[(q + n) % 3]] } else { TYS.to_vec() };
+                for ty in tys { push(json!({"kind": "sol", "ty": ty, "mode": "exact", "fam": if s.is_some() { "odd-zero-pivot" } else { "odd-pivots" }, "step": s.map(|x| x as i64).unwrap_or(-1),
+                    "ctor": ctors[(q + n) % 3], "tri": tri_json(&sub, &main, &sup), "r": r})); }
+            }
+        }
+    }
+    // (c5) exponent sweep: T scaled by 2^k for k over the whole f64 exponent axis (subnormal pivots included), the right-hand
+    //      side scaled alike (solution unchanged) or not at all (solution scaled by 2^-k); det where 2^(n k) is representable
+    let step = if quick { 8 } else { 1 }; let phase = (seed % step as u64) as i64;
+    let mut idx = 0usize; let mut k = -1070 + phase;
+    while k <= 1020 { idx += 1;
+        for (variant, cx) in [(0usize, false), (1, false), (0, true), (1, true)] {
+            if cx && (k < -530 || k > 500 || (quick && idx % 2 == 1)) { continue; }
+            let n = if variant == 1 { 1 } else { 2 + idx % 5 };
+            let mut made = None;
+            for t in 0..60 { let mag = if t < 20 { 2 } else { 1 }; let zero = if idx % 7 == 0 && variant == 0 { Some(rng.gen_range(0..n)) } else { None };
+                let (sub, main, sup, r) = exact_tri(rng, n, zero, 0, mag);
+                let b = bits_of(&[&sub, &main, &sup, &r]) + 3;
+                let both = idx % 2 == 0 || k.abs() > 1000;
+                // operands, intermediates (integers below 2^b times the scale) and the solution must be representable
+                let ok = k + b <= 1022 && k >= -1072 && (both || (-k + b <= 1022 && -k - b >= -1060));
+                if ok { made = Some((sub, main, sup, r, both)); break; } }
+            if let Some((sub, main, sup, r, both)) = made {
+                let mut c = json!({"kind": "sol", "ty": if cx { "cx" } else { "f64" }, "mode": "exact", "fam": "sweep", "xa": k, "xb": if both { k } else { 0 }, "ctor": ctors[idx % 3], "tri": tri_json(&sub, &main, &sup), "r": r, "aux": false});
+                let kn = k * n as i64; if kn + 12 > 1022 || kn < -1070 || (cx && (kn < -530 || kn > 500)) { c["nodet"] = json!(true); }
+                push(c);
+            }
+        }
+        // (finer grid in the subnormal range and next to the overflow threshold)
+        k += if k < -1016 || k >= 996 { (step as i64).min(2) } else { step as i64 };
+    }
 }
